@@ -217,13 +217,18 @@ func c05(r *engine.Report, p *engine.Program) {
 			}
 			// a fresh buffer per read (the receiver reads the slice asynchronously)
 			fresh := false
+			var allocIn ssa.Instruction
 			switch x := engine.Unwrap(buf).(type) {
 			case *ssa.MakeSlice:
-				fresh = true
+				allocIn = x
 			case *ssa.Slice:
-				if al, isAl := x.X.(*ssa.Alloc); isAl && al.Heap && al.Block() == x.Block() {
-					fresh = true
+				if al, isAl := x.X.(*ssa.Alloc); isAl && al.Heap {
+					allocIn = al
 				}
+			}
+			if allocIn != nil {
+				// the allocation is executed again before the next Read (it is inside the read loop)
+				fresh = engine.Reach(G, read, nil, func(in ssa.Instruction) bool { return in == allocIn }, func(in ssa.Instruction) bool { return in == ssa.Instruction(read) }) == nil
 			}
 			if !fresh {
 				ok = false
@@ -335,6 +340,20 @@ func c05(r *engine.Report, p *engine.Program) {
 			}
 			isRet := func(in ssa.Instruction) bool { _, ok := in.(*ssa.Return); return ok }
 			if engine.Reach(mrs, st, engine.EdgeSet{}.Add(complT...), barrier, isRet) != nil || engine.Reach(mrs, st, engine.EdgeSet{}.Add(sizeGE...), barrier, isRet) != nil {
+				okEnd = false
+			}
+		}
+		// no other "the unit is complete, stop" exit: from every IsComplete == true edge a return before the
+		// next round needs the size comparison too
+		for _, e := range complT {
+			if reachFromEdge(mrs, e, engine.EdgeSet{}.Add(sizeGE...), func(in ssa.Instruction) bool {
+				ci, ok := in.(ssa.CallInstruction)
+				if !ok {
+					return false
+				}
+				o := engine.CalleeObj(ci.Common())
+				return in == conn || engine.IsCallTo(ci.Common(), "workceptor.sleepOrDone") || (o != nil && o.Name() == "Err")
+			}, func(in ssa.Instruction) bool { _, ok := in.(*ssa.Return); return ok }) != nil {
 				okEnd = false
 			}
 		}
